@@ -106,6 +106,7 @@ func menu(genesisCoinbase common.Uint256) (*menuT, interfaces.Transaction) {
 	add(&op{name: "part2", txs: one(t8), needs: []string{"fanout"}, miner: addrB})
 	t9 := sk.Transfer(9, ins(fundCb.Hash(), 0, 1), outs(sk.Out(addrB, 100)))
 	add(&op{name: "cbspend", txs: one(t9), miner: addrC})
+	add(&op{name: "nextturn", txs: one(sk.NextTurn(12, 100)), miner: addrB})
 	p1 := sk.Transfer(10, ins(f, 5), outs(sk.Out(addrA, 500), sk.Out(addrB, 500)))
 	p2 := sk.Transfer(11, ins(f, 6, 7), outs(sk.Out(addrA, 1000)))
 	add(&op{name: "two", txs: []interfaces.Transaction{p1, p2}, miner: addrA})
@@ -728,7 +729,7 @@ func main() {
 	}
 	phases := []phase{
 		{"warm", all, r.Pick(5, 7), false},
-		{"reopened", all, r.Pick(4, 5), true},
+		{"reopened", all, r.Pick(3, 5), true},
 	}
 	var totNodes, totTrans, totChecks, totInst, totReopen, totRebuilt int64
 	states := map[string]bool{}
